@@ -433,7 +433,10 @@ class Run:
     def finish(self) -> int:
         wall = time.time() - self.t0
         rc = 0
-        (VERIF / "replays" / self.pid).mkdir(parents=True, exist_ok=True)
+        rp = VERIF / "replays" / self.pid
+        rp.mkdir(parents=True, exist_ok=True)
+        for old in rp.glob("*.json"):
+            old.unlink()
         for sig, hit in sorted(self.known_hits.items()):
             print(f"KNOWN-FINDING: property={self.pid} {self.known[sig]['what']} [{sig}]")
         seen_sig = set()
